@@ -10,7 +10,7 @@ STR_CORE = ['a', ' ', '\n', '\t', '\r', '\x85', '\u2028', '\u00e9', '\x07', '-',
 # first / last members of every character range the reader and the emitter distinguish (printable or not, escaped or not)
 BOUNDARY = ['\x1f', '\x7e', '\x7f', '\x80', '\x84', '\x85', '\x86', '\x9f', '\xa0', '\xa1', '\xff', '\u0100', '\u2027', '\u2028', '\u2029', '\u202a', '\ud7ff', '\ue000', '\ue001',
             '\uf8ff', '\uff21', '\ufffc', '\ufffd', '\ufffe', '\uffff', '\U00010000', '\U0001F600', '\U0010fffe', '\U0010ffff', '\ufeff']
-FOLD_PIECES = ['aaa', 'b', ' ', '  ', '\n', '\n\n', '\n ', ' \n']
+FOLD_PIECES = ['aaa', 'b', ' ', '  ', '\n', '\n\n', '\n ', ' \n', '...', '---']
 
 D = datetime
 LEAVES = [None, True, False, 0, 1, -1, 255, 10 ** 20, -10 ** 20, 0.0, -0.0, 1.5, 1e17, 1e-7, 5e-324, float('inf'), float('-inf'), float('nan'),
